@@ -97,3 +97,52 @@ Definition c17_reorder (snode seps : list (list N)) (post ordering : list N)
      && (length nsp =? length seps')%nat
      && natlist_eqb no (nn ordering')
   then 0%N else 2%N.
+
+(** model validation of the merge strategies and of the no-merge pipeline (information only,
+    code 2): the decisions taken by the implementation's strategy objects (hook merge_trace)
+    against the Gallina models whose step lemmas are proved (MergePC, MergeCG), and the boolean
+    premises of [NoMerge.nomerge_valid_partial] evaluated on the implementation's factor
+    pattern, supernodes, separators and parents. *)
+Require Clarabel.Chordal.NoMerge Clarabel.Chordal.MergePC.
+Definition natll_eqb (a b : list (list nat)) : bool :=
+  (length a =? length b)%nat && forallb (fun ab => natlist_eqb (fst ab) (snd ab)) (combine a b).
+Definition dec_eqb (a b : list (nat * nat * bool)) : bool :=
+  (length a =? length b)%nat
+  && forallb (fun ab => let '((x, y, z), (x', y', z')) := ab in Nat.eqb x x' && Nat.eqb y y' && Bool.eqb z z') (combine a b).
+Definition par_eqb (a b : PostOrder.par) : bool :=
+  match a, b with
+  | PostOrder.Root, PostOrder.Root => true
+  | PostOrder.Dead, PostOrder.Dead => true
+  | PostOrder.Par x, PostOrder.Par y => Nat.eqb x y
+  | _, _ => false
+  end.
+Definition c17_nomerge (adj snodes seps : list (list nat)) (sp : list (option nat)) : N :=
+  if NoMerge.wf_b adj && NoMerge.filled_b adj && NoMerge.ps_ok adj snodes sp
+     && natll_eqb (map (NoMerge.separator adj) snodes) seps
+  then 0%N else 2%N.
+Definition c17_merge_pc (snode sep : list (list nat)) (parent : list PostOrder.par) (post : list nat)
+           (decisions : list (nat * nat * bool)) (end_snode : list (list nat))
+           (parent' : list PostOrder.par) (post' : list nat) : N :=
+  let '(dec, st) := MergePC.pc_run snode sep parent post in
+  if dec_eqb dec decisions
+     && natll_eqb (map Reorder.isort (MergePC.snode st)) end_snode
+     && (length (MergePC.parent st) =? length parent')%nat
+     && forallb (fun ab => par_eqb (fst ab) (snd ab)) (combine (MergePC.parent st) parent')
+     && match MergePC.pc_final_post st with Some l => natlist_eqb l post' | None => false end
+  then 0%N else 2%N.
+Require Clarabel.Chordal.MergeCG.
+Definition c17_merge_cg (snode sep : list (list nat)) (decisions : list (nat * nat * bool))
+           (end_snode : list (list nat)) : N :=
+  let '(dec, cl) := MergeCG.cg_run snode sep in
+  if dec_eqb dec decisions && natll_eqb (map Reorder.isort cl) end_snode then 0%N else 2%N.
+
+(** [CscMatrix::index_to_coord] (used by the fallback scan of the clique-graph strategy) against
+    the proved CSC model of C16: k-th stored entry -> (rowval[k], the column whose range holds k) *)
+Require Clarabel.Csc.Model Clarabel.Csc.Check Clarabel.Base.Ops.
+Definition c17_idx2coord (m n : N) (cp rv : list N) (idx : N) (out : option (N * N)) : N :=
+  let A := Clarabel.Csc.Model.decode (Clarabel.Csc.Check.R m n cp rv (map (fun _ : N => BinNums.Zpos BinNums.xH) rv)) in
+  match out, Clarabel.Csc.Model.index_to_coord Clarabel.Base.Ops.OpsZ A (N.to_nat idx) with
+  | Some (r, c), Some (r', c') => ofb (Nat.eqb (N.to_nat r) r' && Nat.eqb (N.to_nat c) c')
+  | None, None => 0%N
+  | _, _ => 1%N
+  end.
